@@ -610,7 +610,9 @@ func runC38(c *core.Ctx) error {
 		return fmt.Errorf("vacuous: TLC generated only %d scenario shapes", nShapes)
 	}
 	for e := range envs {
-		perEnv[e] = append(perEnv[e], fixedScenarios()...)
+		if e%2 == 0 || c.Thorough() {
+			perEnv[e] = append(perEnv[e], fixedScenarios()...)
+		}
 	}
 	results := make([]*batchResult, len(envs))
 	jobs = nil
